@@ -378,6 +378,20 @@ def sem(run, p, km):
     n += 1
     run.ob('C02-SEM', '%s::%s::subset' % (ver.rel, ver.short), ok,
            'allowed_values: violations = actual - allowed - exclusions; satisfied iff none', fn=ver)
+    # rex: each expression is compiled and matched on its own (backreferences and group numbers stay local)
+    crc = p.method('PandasConstraintCalculator', 'calc_rex_constraint')
+    comps = [x for x in ast.walk(crc.node) if isinstance(x, ast.Call) and norm(x.func) == 're.compile']
+    okr = bool(comps)
+    for c in comps:
+        par = None
+        for y in ast.walk(crc.node):
+            if isinstance(y, (ast.ListComp, ast.GeneratorExp)) and y.elt is c:
+                par = y
+        okr = okr and par is not None and isinstance(c.args[0], ast.Name) and \
+            any(isinstance(g.target, ast.Name) and g.target.id == c.args[0].id for g in par.generators)
+    n += 1
+    run.ob('C02-SEM', '%s::%s::each-expression' % (crc.rel, crc.short), okr,
+           'rex: %s' % ('every expression of the list is compiled by itself' if okr else 'the expressions are not compiled one by one: %s' % [norm(c)[:50] for c in comps]), fn=crc)
     ver = km['type'][0]
     t = tables.table(ver.node, tables.pick_result())
     strict = [r for r in t if r[0] == ('strict',)]
@@ -420,26 +434,7 @@ def fuzz(run, p, km):
         ok = 'datetime.datetime' in src and 'datetime.date' in src and any(
             isinstance(s, ast.If) and returns_v(s.body, f.posparams[0]) for s in f.node.body)
         run.ob('C02-FUZZ', '%s::%s::dates' % (f.rel, f.short), ok, '%s returns dates unchanged' % name, fn=f, nontrivial=False)
-    fuzzed = {}
-    for name, op, helper in (('fuzzy_greater_than', ast.GtE, 'fuzz_down'), ('fuzzy_less_than', ast.LtE, 'fuzz_up'),
-                             ('df_fuzzy_gt', ast.GtE, 'fuzz_down'), ('df_fuzzy_lt', ast.LtE, 'fuzz_up')):
-        f = p.fn(name) if name.startswith('df_') else p.fn(base + name)
-        ret = [s for s in f.node.body if isinstance(s, ast.Return)]
-        ok = False
-        if len(ret) == 1:
-            v = ret[0].value
-            parts = v.values if isinstance(v, ast.BoolOp) and isinstance(v.op, ast.Or) else \
-                ([v.left, v.right] if isinstance(v, ast.BinOp) and isinstance(v.op, ast.BitOr) else [])
-            a, b = f.posparams[0], f.posparams[1]
-            if len(parts) == 2 and all(isinstance(x, ast.Compare) and isinstance(x.ops[0], op) for x in parts):
-                exact = [x for x in parts if norm(x.left) == a and norm(x.comparators[0]) == b]
-                fz = [x for x in parts if norm(x.left) == a and isinstance(x.comparators[0], ast.Call)
-                      and getattr(x.comparators[0].func, 'id', '') == helper
-                      and norm(x.comparators[0].args[0]) == b and norm(x.comparators[0].args[1]) == f.posparams[2]]
-                ok = len(exact) == 1 and len(fz) == 1
-        fuzzed[f.name] = 1
-        run.ob('C02-FUZZ', '%s::%s::shape' % (f.rel, f.short), ok,
-               '%s(a, b, e) is `a %s b or a %s %s(b, e)`' % (name, '>=' if op is ast.GtE else '<=', '>=' if op is ast.GtE else '<=', helper), fn=f)
+    fuzz_shape(run, p, 'C02-FUZZ')
     # roles at every call that reaches a fuzzed position, through helpers
     fparams = fuzzed_params(p, {'fuzz_down': {0}, 'fuzz_up': {0}})
     n = 0
@@ -540,3 +535,25 @@ def fuzzed_params(p, seed):
                             out[f.name].add(j)
                             changed = True
     return out
+
+
+def fuzz_shape(run, p, rid):
+    base = 'tdda.constraints.base.'
+    for name, op, helper in (('fuzzy_greater_than', ast.GtE, 'fuzz_down'), ('fuzzy_less_than', ast.LtE, 'fuzz_up'),
+                             ('df_fuzzy_gt', ast.GtE, 'fuzz_down'), ('df_fuzzy_lt', ast.LtE, 'fuzz_up')):
+        f = p.fn(name) if name.startswith('df_') else p.fn(base + name)
+        ret = [s for s in f.node.body if isinstance(s, ast.Return)]
+        ok = False
+        if len(ret) == 1:
+            v = ret[0].value
+            parts = v.values if isinstance(v, ast.BoolOp) and isinstance(v.op, ast.Or) else \
+                ([v.left, v.right] if isinstance(v, ast.BinOp) and isinstance(v.op, ast.BitOr) else [])
+            a, b = f.posparams[0], f.posparams[1]
+            if len(parts) == 2 and all(isinstance(x, ast.Compare) and isinstance(x.ops[0], op) for x in parts):
+                exact = [x for x in parts if norm(x.left) == a and norm(x.comparators[0]) == b]
+                fz = [x for x in parts if norm(x.left) == a and isinstance(x.comparators[0], ast.Call)
+                      and getattr(x.comparators[0].func, 'id', '') == helper
+                      and norm(x.comparators[0].args[0]) == b and norm(x.comparators[0].args[1]) == f.posparams[2]]
+                ok = len(exact) == 1 and len(fz) == 1
+        run.ob(rid, '%s::%s::shape' % (f.rel, f.short), ok,
+               '%s(a, b, e) is `a %s b or a %s %s(b, e)`' % (name, '>=' if op is ast.GtE else '<=', '>=' if op is ast.GtE else '<=', helper), fn=f)
